@@ -55,6 +55,8 @@ pub struct Stream {
     pub peer_addr: Option<SocketAddr>,
     pub poll: Option<(u64, usize, bool, bool)>,
     pub was_full: bool,
+    /// a `send_slow` write on this stream has begun and not yet completed
+    pub slow_in_progress: bool,
 }
 
 #[derive(Default)]
@@ -106,6 +108,14 @@ pub fn note_sleep(enter: bool, nanos: u64) {
     if let Some(n) = cur() {
         n.st.lock().unwrap().sleeps.push(SleepNote { tid: dsim::tid(), enter, time: dsim::now(), step: dsim::step(), nanos });
     }
+}
+
+/// how long a `send_slow` fault keeps a blocking send waiting (virtual time)
+pub const SLOW_SEND_NS: [u64; 3] = [2_000_000, 400_000_000, 900_000_000];
+
+/// number of `send_slow` faults injected so far in the current run
+pub fn slow_sends() -> usize {
+    cur().map_or(0, |n| n.faults.lock().unwrap().fired.iter().filter(|f| f.kind == "send_slow").count())
 }
 
 pub struct SimBackend;
@@ -220,8 +230,13 @@ impl Backend for SimBackend {
         dsim::point("net.dgram_send");
         let ep = n.st.lock().unwrap().dgram_socks.get(&sock).cloned().ok_or_else(no_net)?;
         let udp = ep.starts_with("udp://");
-        let kinds: &[(&'static str, u64, u64)] = if udp { &[("dgram_drop", 100, 0), ("dgram_dup", 50, 0), ("send_refused", 100, 0), ("send_nobufs", 50, 0)] } else { &[("send_refused", 100, 0), ("send_nobufs", 100, 0), ("send_timeout", 50, 0)] };
+        let kinds: &[(&'static str, u64, u64)] = if udp { &[("dgram_drop", 100, 0), ("dgram_dup", 50, 0), ("send_refused", 100, 0), ("send_nobufs", 50, 0), ("send_slow", 60, 2)] } else { &[("send_refused", 100, 0), ("send_nobufs", 100, 0), ("send_timeout", 50, 0), ("send_slow", 60, 2)] };
         let f = n.fault(&format!("dgram:{}", ep), kinds);
+        if let Some(("send_slow", arg)) = f {
+            // the agent is slow to take the datagram: the blocking send succeeds, but only after a
+            // while (shorter than any write timeout the exporters configure)
+            dsim::sleep(SLOW_SEND_NS[arg as usize % 3]);
+        }
         let mut st = n.st.lock().unwrap();
         let d = Delivery { endpoint: ep, conn: sock, time: dsim::now(), step: dsim::step(), data: buf.to_vec() };
         match f.map(|x| x.0) {
@@ -256,8 +271,23 @@ impl Backend for SimBackend {
     fn stream_write(&self, sock: u64, buf: &[u8]) -> io::Result<usize> {
         let n = cur().ok_or_else(no_net)?;
         dsim::point("net.stream_write");
-        let ep = n.st.lock().unwrap().streams.get(&sock).map(|s| s.endpoint.clone()).ok_or_else(no_net)?;
-        let f = n.fault(&format!("stream:{}:{}", ep, sock), &[("short_write", 150, 64), ("write_eintr", 60, 0), ("write_epipe", 40, 0), ("write_reset", 30, 0), ("write_wouldblock", 60, 0)]);
+        let (ep, blocking) = n.st.lock().unwrap().streams.get(&sock).map(|s| (s.endpoint.clone(), s.poll.is_none() && dsim::in_sim())).ok_or_else(no_net)?;
+        let kinds: &[(&'static str, u64, u64)] = if blocking {
+            &[("short_write", 150, 64), ("write_eintr", 60, 0), ("write_epipe", 40, 0), ("write_reset", 30, 0), ("write_wouldblock", 60, 0), ("send_slow", 60, 2)]
+        } else {
+            &[("short_write", 150, 64), ("write_eintr", 60, 0), ("write_epipe", 40, 0), ("write_reset", 30, 0), ("write_wouldblock", 60, 0)]
+        };
+        let f = n.fault(&format!("stream:{}:{}", ep, sock), kinds);
+        if let Some(("send_slow", arg)) = f {
+            // a blocking stream whose peer drains slowly: the write completes, late
+            if let Some(s) = n.st.lock().unwrap().streams.get_mut(&sock) {
+                s.slow_in_progress = true;
+            }
+            dsim::sleep(SLOW_SEND_NS[arg as usize % 3]);
+            if let Some(s) = n.st.lock().unwrap().streams.get_mut(&sock) {
+                s.slow_in_progress = false;
+            }
+        }
         let mut st = n.st.lock().unwrap();
         let now = dsim::now();
         let step = dsim::step();
